@@ -88,6 +88,7 @@ def observe(c):
             def close(got, exp, what):
                 got = np.asarray(got)
                 exp = np.asarray(exp)
+                fl = 0.0 if "*b)" in what else floor     # scaled right-hand sides: purely relative
                 if got.shape != exp.shape:
                     V("shape", f"{what}: shape {got.shape} != {exp.shape}", **extra)
                     return
@@ -95,7 +96,7 @@ def observe(c):
                     V("value", f"{what}: non-finite result", **extra)
                     return
                 err = float(np.max(np.abs(got.astype(np.complex128) - exp)))
-                if err > rtol * max(floor, float(np.max(np.abs(exp)))):
+                if err > rtol * max(fl, float(np.max(np.abs(exp)))):
                     V("value", f"{what}: max abs error {err:.3g} (tolerance {rtol:.2g} x scale)", what=what.split("[")[0],
                       **extra)
 
@@ -136,6 +137,11 @@ def observe(c):
                 except Exception as e:  # noqa: BLE001
                     V("exception", f"inv(A)@Bscaled with {name} raised {type(e).__name__}: {str(e)[:140]}",
                       what="inv(A)@Bscaled", **extra, **common.exc_info(e))
+            # a tiny right-hand side: the system is linear in b, so inv(A) @ (c b) = c inv(A) @ b to the same RELATIVE
+            # accuracy (absolute floors in normalisations / stopping tests show up here)
+            for cb in ((1e-13, 1e-30) if not single else (1e-13, )):
+                bt = (b.astype(np.complex128) * cb).astype(b.dtype)
+                steps.append((f"inv(A)@({cb:g}*b)", lambda bt=bt: Ai @ bt, inv_exact @ bt.astype(np.complex128)))
             if direct:
                 steps += [("b@inv(A)", lambda: b @ Ai, b.astype(np.complex128) @ inv_exact),
                           ("inv(A).T.to_dense()", lambda: Ai.T.to_dense(), inv_exact.T)]
